@@ -373,6 +373,9 @@ def calculate_nd_frequencies(
             missing = np.result_type(weights.dtype, frequencies.dtype).type(
                 weights[~inside].sum()
             )
+        if np.can_cast(weights.dtype, frequencies.dtype):
+            # (narrow integer weights would wrap around when squared in their own type)
+            weights = weights.astype(frequencies.dtype)
         err_freq, _ = np.histogramdd(data, edges, weights=weights**2)
         errors2 = err_freq[ixgrid].astype(dtype)  # Automatically copy
     else:
@@ -465,6 +468,12 @@ def calculate_1d_frequencies(
     inferred_dtype: np.dtype = np.dtype(dtype or weights_array.dtype)
     if inferred_dtype.kind in "iu" and weights_array.dtype.kind == "f":
         raise ValueError("Integer histogram requested but float weights entered.")
+    if weights_array.dtype != inferred_dtype and np.can_cast(
+        weights_array.dtype, inferred_dtype
+    ):
+        # Sums and squares are taken in the type of the histogram,
+        # not in the (narrower) type the weights happen to come in.
+        weights_array = weights_array.astype(inferred_dtype)
 
     # Data sorting
     if not already_sorted:
